@@ -699,6 +699,9 @@ func main() {
 	//      both signs have perfectly good ranks; exact, approximate and legacy paths
 	extremes(rng)
 
+	// 4b''. bigtie: one value repeated 255..520 times (byte-sized counters wrap at 256); approximate branch
+	bigTie(rng)
+
 	// 4c. histories: look-alike tie vectors with large tie groups, evaluated one after the other in
 	//     one process; every answer must be the one the stateless specification gives for ITS case
 	historyFamily(rng)
@@ -1025,6 +1028,62 @@ func hasTie(T []int) bool {
 		}
 	}
 	return false
+}
+
+// bigTie: samples of 260-600 values in which one value occurs 255/256/257/300/520 times in the first
+// sample (controls: the long run in the second sample, or split over both). All on the approximate
+// branch, three alternatives, legacy benchstat.UTest through alt=differs. U is the pair count as ever.
+func bigTie(rng *hx.Rand) {
+	build := func(n, rep, v int, spread int) []int {
+		x := make([]int, 0, n)
+		for i := 0; i < rep; i++ {
+			x = append(x, v)
+		}
+		for len(x) < n {
+			w := rng.Intn(spread) - spread/2
+			if w == v {
+				continue
+			}
+			x = append(x, w)
+		}
+		shuffle(rng, x)
+		return x
+	}
+	reps := []int{255, 256, 257, 300, 520}
+	for i, r := range reps {
+		n1 := r + 5 + rng.Intn(40)
+		if n1 < 260 {
+			n1 = 260 + rng.Intn(20)
+		}
+		n2 := 260 + rng.Intn(60)
+		v := 5
+		// long run in the first sample; the second has a few copies of v and many other values
+		mwAuto(build(n1, r, v, 40), build(n2, 3+i, v, 40), 1, defLim, defLimT, "bigtie")
+		// control: the long run in the SECOND sample
+		mwAuto(build(n2, 3+i, v, 40), build(n1, r, v, 40), 1, defLim, defLimT, "bigtie")
+		// long runs in both, wide spread of the other values (few other ties)
+		mwAuto(build(n1, r, v, 100000), build(n2, 256+i, v, 100000), 2, defLim, defLimT, "bigtie")
+	}
+	// completely separated: |z| about 30 (first sample far above / far below the second)
+	sepHi, sepLo := build(300, 280, 1, 10), make([]int, 320)
+	for j := range sepLo {
+		sepLo[j] = -100 - rng.Intn(3)
+	}
+	mwAuto(sepHi, sepLo, 1, defLim, defLimT, "bigtie", "separated")
+	mwAuto(sepLo, sepHi, 1, defLim, defLimT, "bigtie", "separated")
+	for i, n := 0, hx.N(4, 30); i < n; i++ {
+		r := 250 + rng.Intn(300)
+		n1, n2 := r+1+rng.Intn(600-r), 260+rng.Intn(340)
+		// even i: the same repeated value and spread on both sides (moderate z); odd i: different
+		// repeated values and spreads - the samples may be completely separated (|z| around 30,
+		// p = 1 or about 0; beyond |z| = 13 the driver compares with the limit value absolutely)
+		v, spread := rng.Intn(7)-3, 30+rng.Intn(500)
+		v2, spread2 := v, spread
+		if i%2 == 1 {
+			v2, spread2 = rng.Intn(7)-3, 30+rng.Intn(500)
+		}
+		mwAuto(build(n1, r, v, spread), build(n2, rng.Intn(300), v2, spread2), 1, defLim, defLimT, "bigtie")
+	}
 }
 
 func extremes(rng *hx.Rand) {
